@@ -1,5 +1,5 @@
 (* Props/C05.v -- C05: a symbol defined later gives the same result as one defined earlier. *)
-From Az65 Require Import Base Token Expr ExprParse Linker Asm LinkerFacts.
+From Az65 Require Import Base Token Expr ExprParse Linker Asm LinkerFacts LinkGenFacts.
 
 (* The two paths of every operand site.  When the expression can be solved while parsing, the
    operand emitter pushes [now_bytes k v] (or rejects by range); when it cannot, it pushes a
@@ -93,3 +93,13 @@ Theorem C05_undefined_fails :
     exists k, link_all st refs ls d = Diag k.
 Proof. exact undefined_fails. Qed.
 Print Assumptions C05_undefined_fails.
+
+(* TRANSLATOR TIE: the five arms of Module::link (range test, stores) as re-translated from src/linker.rs on every
+   run (Gen/LinkArms.v) are the arms of the model's apply_link the theorems above are about: for every link kind,
+   offset, image and 32-bit value. *)
+Theorem C05_generated_link_arms :
+  forall st (l : link) (d : list N) (v : Z),
+    eval_top st (l_expr l) = Val v -> in_i32 v ->
+    apply_link st l d = gen_apply_link (l_kind l) (l_off l) v d.
+Proof. exact generated_link_arms_are_model_arms. Qed.
+Print Assumptions C05_generated_link_arms.
